@@ -329,7 +329,7 @@ def cases(tier, seed):
                 "formats": ["bif", "xmlbif", "uai", "net"] if bif else ["xmlbif", "uai", "net"]}
 
     # BIF with each BIF-relevant option (a BIFReader costs 2 s, so these are listed, not drawn)
-    for rep in range(1 if tier == "quick" else 12):
+    for rep in range(1 if tier == "quick" else 6):
         for opts, kind, nj in [({"round_values": 0}, "ident", 1), ({"round_values": 3, "session": True}, "ident", 1),
                                ({"props": True, "include_properties": True}, "ident", 1),
                                ({"decorate": True, "route": "path"}, "ident", 1),
@@ -338,16 +338,16 @@ def cases(tier, seed):
                                ({"round_values": 12, "decorate": True}, "bool", 1)]:
             out.append(variant(opts, kind, True, nj, n="fixed"))
     # every option drawn independently
-    for i in range(36 if tier == "quick" else 700):
+    for i in range(36 if tier == "quick" else 500):
         opts = {"session": rng.random() < 0.5, "route": rng.choice(["string", "path"]), "decorate": rng.random() < 0.3,
                 "props": rng.random() < 0.35, "include_properties": rng.random() < 0.5,
                 "xml_pretty": rng.choice([None, None, False]), "round_values": rng.choice([None, None, None, 0, 3, 12]),
                 "backend": rng.choice(["numpy", "numpy", "torch"])}
         out.append(variant(opts, rng.choice(["ident", "default_int", "int_perm", "bool"]),
-                           tier != "quick" and rng.random() < 0.3, rng.choice([1, 1, 1, 2]) if i % 10 else -1))
+                           tier != "quick" and rng.random() < 0.3, -1 if i % 60 == 0 else (2 if i % 20 == 1 else 1)))
     # wide CPDs: 8..10 parents (>= 9 variables in one table; long rows / deep nesting in the NET array text)
     for i in range(3 if tier == "quick" else 30):
-        out.append({"kind": "bn", "bn": gen_bn(rng, 10, wide=8 if tier == "quick" else True), "njobs": 1, "saveload": i % 2 == 0,
+        out.append({"kind": "bn", "bn": gen_bn(rng, 10, wide=8 if tier == "quick" or i % 3 == 0 else True), "njobs": 1, "saveload": i % 2 == 0,
                     "opts": {"session": i % 2 == 1}, "formats": ["xmlbif", "uai", "net"] + (["bif"] if i % 3 == 0 else [])})
     # the empty network (UAI text of an empty network is not readable by UAIReader: reported, not exercised)
     out.append({"kind": "empty"})
